@@ -13,6 +13,8 @@ impl<K> BTreeSet<K> {
     #[verifier::external_body] pub fn default() -> (r: BTreeSet<K>) ensures r@ == Set::<K>::empty() { unimplemented!() }
     #[verifier::external_body] pub fn new() -> (r: BTreeSet<K>) ensures r@ == Set::<K>::empty() { unimplemented!() }
     #[verifier::external_body] pub fn is_empty(&self) -> (r: bool) ensures r == (self@ =~= Set::<K>::empty()) { unimplemented!() }
+    // number of members: nothing is assumed about it beyond emptiness (the view is not known to be finite)
+    #[verifier::external_body] pub fn len(&self) -> (r: usize) ensures (r == 0) == (self@ =~= Set::<K>::empty()) { unimplemented!() }
     #[verifier::external_body] pub fn contains<Q: ?Sized + KvxKey<K>>(&self, k: &Q) -> (r: bool) ensures r == self@.contains(k.as_key()) { unimplemented!() }
     #[verifier::external_body] pub fn insert(&mut self, k: K) -> (r: bool) ensures final(self)@ == old(self)@.insert(k), r == !old(self)@.contains(k) { unimplemented!() }
     #[verifier::external_body] pub fn append(&mut self, o: &mut BTreeSet<K>) ensures final(self)@ == old(self)@.union(old(o)@), final(o)@ == Set::<K>::empty() { unimplemented!() }
